@@ -42,6 +42,8 @@ FILE_POOL = [
     "._f.txt",
     ".hidden",
     "sub/._h",
+    "a{b}.txt",
+    "sub/{0}",
 ]
 PROJECT_ENTRIES = ("Project.sync", "sync_projects")
 JOB_ENTRIES = ("Job.sync", "sync_jobs")
@@ -333,8 +335,12 @@ def invoke(plan, src_root, dst_root, **override):
         return sync.DocSync.ByKey(krec)
 
     def mk_exclude():
+        # the caller keeps its list of patterns and hands the same object to every call it makes for this pair
+        # (first run, repeated run, dry run followed by the real one)
         ex = opts["exclude"]
-        return list(ex) if isinstance(ex, list) else ex
+        if not isinstance(ex, list):
+            return ex
+        return plan.setdefault("_exclude_object", list(ex))
 
     out = {"kind": "returns", "filename": None, "keys": None, "msg": "", "jobs_done": []}
     sink = io.StringIO()
